@@ -32,7 +32,7 @@ Final ==
 TNext == /\ verdict = "run"
          /\ IF l <= Steps
             THEN /\ Next /\ l' = l + 1 /\ UNCHANGED verdict
-                 /\ (phase' = "done" => (kind' = P.kind /\ collist' = [i \in DOMAIN P.collist |-> P.collist[i]] /\ known' = ToSet(P.known) /\ tk' = P.tk))
+                 /\ (phase' = "done" => (kind' = P.kind /\ collist' = [i \in DOMAIN P.collist |-> P.collist[i]] /\ known' = ToSet(P.known) /\ tk' = P.tk /\ lca' = P.lca))
                  /\ kind' \in {None, P.kind}
                  /\ Len(rels') <= Len(P.rels) /\ \A i \in DOMAIN rels' : rels'[i] = Rel(P.rels[i])
                  /\ Len(items') <= Len(P.items) /\ \A i \in DOMAIN items' : items'[i] = Item(P.items[i])
